@@ -210,7 +210,10 @@ func ScenarioCommitteeParamChange() Script {
 }
 
 // ScenarioF2: DESIGN §7.3 F2 — a CDP with two equal deposits and a total debt of 10000003 is liquidated
-// by the cdp begin blocker after a price drop; the per-deposit debt shares round up to debt + 1.
+// by the cdp begin blocker after a price drop. Before the fix bfd342e03 the per-deposit debt shares rounded
+// up to debt + 1 and the begin blocker panicked; the scenario must now run through (any begin-block panic is
+// reported as a violation by the C02 harness), and the liquidation must really have happened (checked by
+// the harness: the cdp is gone and collateral auctions exist).
 func ScenarioF2() Script {
 	return script(
 		blk(sixS, func(g *Gen) []genFn {
